@@ -1,7 +1,7 @@
 (** C16 — property theorems only.  Each is closed by [exact] of a lemma in Proofs*.v and followed
     by [Print Assumptions]. *)
 From V Require Import Base.Util Gql.Ast Writer.Wop C16.Model C16.Spec
-  C16.ProofsTemplate C16.ProofsString C16.ProofsStrip C16.Proofs.
+  C16.ProofsTemplate C16.ProofsString C16.ProofsStrip C16.ProofsDoc C16.ProofsReindent C16.Proofs.
 Local Open Scope N_scope.
 
 (** the template literal JsStringWriter writes evaluates to a line feed followed by exactly what
@@ -11,6 +11,35 @@ Theorem C16_template_roundtrip : forall ops,
   eval_template (js_run ops) = Some (LF :: just_run ops).
 Proof. exact template_roundtrip. Qed.
 Print Assumptions C16_template_roundtrip.
+
+(** the operation lists the printers produce satisfy those guards: for every type-system document
+    (resolved or with extensions) and every operation document whose names and numbers are atoms
+    and whose multi-line strings have no carriage return, the template literal evaluates to the
+    printed text *)
+Theorem C16_tsdoc_template_roundtrip : forall d,
+  tsdoc_ok d = true -> eval_template (js_run (print_tsdoc d)) = Some (LF :: just_run (print_tsdoc d)).
+Proof. exact tsdoc_template_roundtrip. Qed.
+Print Assumptions C16_tsdoc_template_roundtrip.
+
+Theorem C16_tsdoc_ext_template_roundtrip : forall d,
+  tsdoc_ok d = true -> eval_template (js_run (print_tsdoc_ext d)) = Some (LF :: just_run (print_tsdoc_ext d)).
+Proof. exact tsdoc_ext_template_roundtrip. Qed.
+Print Assumptions C16_tsdoc_ext_template_roundtrip.
+
+Theorem C16_opdoc_template_roundtrip : forall d,
+  opdoc_ok d = true -> eval_template (js_run (print_opdoc d)) = Some (LF :: just_run (print_opdoc d)).
+Proof. exact opdoc_template_roundtrip. Qed.
+Print Assumptions C16_opdoc_template_roundtrip.
+
+(** the module written for serverGraphqlOutput exports a line feed followed by the SDL text of
+    the checked schema minus the nitrogql-only directives *)
+Theorem C16_server_module_value : forall model_plugin d,
+  directives_placed model_plugin d = true ->
+  tsdoc_ok (spec_server_schema model_plugin d) = true ->
+  module_value (server_module model_plugin d)
+  = Some (LF :: just_run (print_tsdoc (spec_server_schema model_plugin d))).
+Proof. exact server_module_value. Qed.
+Print Assumptions C16_server_module_value.
 
 (** the literal print_string writes, followed by anything that is not a quote, lexes as one
     StringValue whose value (nitrogql's reading) is the string *)
@@ -39,6 +68,21 @@ Print Assumptions C16_strip_only_nitrogql.
 Theorem C16_remove_builtins_idempotent : forall d, remove_builtins (remove_builtins d) = remove_builtins d.
 Proof. exact remove_builtins_idempotent. Qed.
 Print Assumptions C16_remove_builtins_idempotent.
+
+(** the re-indentation of block strings by the writers (a known finding under nitrogql's raw
+    reading) does not change the value the specification gives the block string *)
+Theorem C16_reindent_preserves_spec_value : forall n l0 rest,
+  forallb line_ok (l0 :: rest) = true ->
+  block_string_value (join_lf (l0 :: indent_lines n rest)) = block_string_value (join_lf (l0 :: rest)).
+Proof. exact reindent_preserves_spec_value. Qed.
+Print Assumptions C16_reindent_preserves_spec_value.
+
+(** [indent_lines] is what JustWriter does to the lines of a chunk after the first *)
+Theorem C16_write_chunk_lines : forall c0 l0 rest ind,
+  fst (write_lines (fun l => l) true ((c0 :: l0) :: rest) ind false)
+  = (c0 :: l0) ++ flat_map (fun l => LF :: indent_line (N.to_nat ind) l) rest.
+Proof. exact write_chunk_lines. Qed.
+Print Assumptions C16_write_chunk_lines.
 
 (** refutations (known findings) *)
 Theorem C16_print_string_quote_refuted :
